@@ -494,11 +494,8 @@ class DataLinkConnection(TransmissionControlObject):
                 self.state.CLOSED = True
                 raise err.ConnectRefused(rcvd_pdu.reason)
             elif rcvd_pdu.name == "CC":
-                self.peer = rcvd_pdu.ssap
+                # the connection was established when the CC PDU arrived
                 self.recv_buf = self.recv_win
-                self.send_miu = rcvd_pdu.miu
-                self.send_win = rcvd_pdu.rw
-                self.state.ESTABLISHED = True
                 return
             else:  # pragma: no cover
                 raise RuntimeError("CC or DM expected, not " + rcvd_pdu.name)
@@ -630,6 +627,17 @@ class DataLinkConnection(TransmissionControlObject):
         elif self.state.CONNECT and rcvd_pdu.name in ("CC", "DM"):
             with self.lock:
                 if len(self.recv_queue) == 0:  # only the first answer counts
+                    if rcvd_pdu.name == "CC":
+                        # The peer may send right after the CC PDU, the
+                        # connection must be established now and not when
+                        # the thread in connect() gets to run. The CC PDU
+                        # takes one more place in the receive queue until
+                        # connect() has fetched it.
+                        self.peer = rcvd_pdu.ssap
+                        self.recv_buf = self.recv_win + 1
+                        self.send_miu = rcvd_pdu.miu
+                        self.send_win = rcvd_pdu.rw
+                        self.state.ESTABLISHED = True
                     self.recv_queue.append(rcvd_pdu)
                     self.recv_ready.notify()
 
